@@ -4,10 +4,14 @@ use crate::engine::{Ctx, Verdict};
 use serde_json::Value;
 
 pub mod c01;
+pub mod c02;
 pub mod c03;
 pub mod c04;
 pub mod c05;
+pub mod c06;
+pub mod c07;
 pub mod c10;
+pub mod c13;
 
 pub const ALL: &[&str] = &[
     "C01", "C02", "C03", "C04", "C05", "C06", "C07", "C08", "C09", "C10", "C11", "C12", "C13", "C14", "C15", "C16",
@@ -21,10 +25,14 @@ pub fn needs_cli(id: &str) -> bool {
 pub fn run(ctx: &mut Ctx) -> bool {
     match ctx.id.as_str() {
         "C01" => c01::run(ctx),
+        "C02" => c02::run(ctx),
         "C03" => c03::run(ctx),
         "C04" => c04::run(ctx),
         "C05" => c05::run(ctx),
+        "C06" => c06::run(ctx),
+        "C07" => c07::run(ctx),
         "C10" => c10::run(ctx),
+        "C13" => c13::run(ctx),
         _ => return false,
     }
     true
@@ -34,10 +42,14 @@ pub fn replay(id: &str, sub: &str, case: &Value, ctx: &Ctx) -> Option<Verdict> {
     let _ = ctx;
     match id {
         "C01" => c01::replay(sub, case),
+        "C02" => c02::replay(sub, case),
         "C03" => c03::replay(sub, case),
         "C04" => c04::replay(sub, case),
         "C05" => c05::replay(sub, case),
+        "C06" => c06::replay(sub, case),
+        "C07" => c07::replay(sub, case),
         "C10" => c10::replay(sub, case),
+        "C13" => c13::replay(sub, case),
         _ => None,
     }
 }
